@@ -67,6 +67,8 @@ def strategy(tier):
             pbox, xbox, tmax = CATALOGUE[name]
             theta = {k: (S.sig(draw(S.fl(lo, hi, 4)), 4) if lo != hi else lo) for k, (lo, hi) in pbox.items()}
             x0 = [S.sig(draw(S.fl(lo, hi, 4)), 4) if lo != hi else lo for lo, hi in xbox]
+            # signed boxes: no vanishing (1e-155) initial values - scipy's explicit integrators fail to pick a first step there
+            x0 = [v if abs(v) >= 1e-3 or v == 0 else 0.0 for v in x0]
             n = draw(st.integers(1, 12))
             if draw(st.booleans()):
                 step = draw(S.fl(0.02, 1.0, 3)) * tmax / max(n, 1)
